@@ -83,7 +83,7 @@ def r12(repo, res, m):
     res.ob("C02.R2", f, m.fams.containers[V]["site"], ok, expected="one binary selector per allele copy", found=ast.unparse(comp)[:90] if comp else "?",
            key="selector-per-copy")
     # R1 -- CSAT
-    x = {k: round(0.13 + 0.07 * i, 2) for i, k in enumerate(sorted(A))}
+    x = {k: round(0.13 + 0.07 * i + 0.013 * VAL_SEED * ((i * 5) % 7), 3) for i, k in enumerate(sorted(A))}
     env = {"alleles": A, "cn_solution": structure, V: {k: k for k in A}}
     hit = None
     for a, b in m.equalities():
@@ -129,7 +129,7 @@ def r3(repo, res, m, V):
         return None, None
     N, Efam = N[0], Efam[0]
     func_muts = {M1, M2, M3, INS}
-    x = {k: round(0.13 + 0.07 * i, 2) for i, k in enumerate(sorted(A))}
+    x = {k: round(0.13 + 0.07 * i + 0.013 * VAL_SEED * ((i * 5) % 7), 3) for i, k in enumerate(sorted(A))}
     nv = {M1: 0.5, M2: 0.25, M3: 1.0, INS: 0.0}
     err = collections.defaultdict(lambda: 0.125)
     tables = [t for t in ("constraints",) if any(True for _ in m.scatter(t))]
@@ -453,7 +453,22 @@ def r7(repo, res):
            found=str(out), key="empty-configuration")
 
 
+VAL_SEED = 0
+
+
 def run(repo, res):
+    global VAL_SEED
+    from sa.report import seed as _seed, thorough
+
+    rounds = [0] if not thorough() else [0] + [1 + (_seed() + j) % 97 for j in range(4)]
+    for sd in rounds:
+        VAL_SEED = sd
+        _run(repo, res)
+    res.count("C02:valuations evaluated per template", len(rounds))
+    VAL_SEED = 0
+
+
+def _run(repo, res):
     f = repo.func("major::solve_major_model")
     res.analysed(f)
     m = Model(f, ["constraints"])
